@@ -1388,7 +1388,27 @@ pub fn generate(ctx: &mut Ctx) {
             .collect();
         for (ti, t) in triples.iter().enumerate() {
             for rot in 0..recs.len() {
-                let qs: Vec<Q> = (0..recs.len()).map(|k| Q::RelX(recs.clone(), t.rel.clone(), t.term.clone(), t.target.clone(), (k + rot) % recs.len())).collect();
+                let mut qs: Vec<Q> = (0..recs.len()).map(|k| Q::RelX(recs.clone(), t.rel.clone(), t.term.clone(), t.target.clone(), (k + rot) % recs.len())).collect();
+                // ... then some records CHANGE (every Ref of the odd records points at the next record) and the family is
+                // asked again of the same namespace: the walks start on the same refs but lead elsewhere now
+                let rotr = |r: &str| -> String {
+                    match r.strip_prefix('r').and_then(|n| n.parse::<usize>().ok()) {
+                        Some(n) => format!("r{}", (n + 1) % 6),
+                        None => r.to_string(),
+                    }
+                };
+                let moved: Vec<c13::RelRec> = recs
+                    .iter()
+                    .enumerate()
+                    .map(|(i, r)| {
+                        if i % 2 == 1 {
+                            c13::RelRec { key: r.key.clone(), tags: r.tags.iter().map(|(k, v)| (k.clone(), if k == "id" { v.clone() } else { v.as_deref().map(rotr) })).collect() }
+                        } else {
+                            r.clone()
+                        }
+                    })
+                    .collect();
+                qs.extend((0..recs.len()).map(|k| Q::RelX(moved.clone(), t.rel.clone(), t.term.clone(), t.target.clone(), (k + rot) % recs.len())));
                 let mut tk = vec![qs.len().to_string()];
                 for q in &qs {
                     q.write(&mut tk);
